@@ -24,8 +24,11 @@ def session(rng, kind):
     u = dbgen.Uniq()
     nk = rng.choice([3, 6])
     steps = []
-    if kind == "wrap":       # > 4 MiB logged: the WAL write buffer wraps and a write(2) ends inside a record
-        steps.append(dict(dbgen.open_step(1, 1 << 30, 1000, mem=rng.choice([3 << 20, 1 << 30]), bg=False), **{"async": True}))
+    if kind in ("wrap", "diowrap"):   # > 4 MiB logged: the WAL write buffer wraps and a write(2) ends inside a record
+        extra = {"async": True}
+        if kind == "diowrap":         # ... with block-aligned direct-I/O writes, and rotations (memstore 3 MiB) after the buffer has wrapped
+            extra["directio"] = True
+        steps.append(dict(dbgen.open_step(1, 1 << 30, 1000, mem=(3 << 20) if kind == "diowrap" else rng.choice([3 << 20, 1 << 30]), bg=False), **extra))
         for i in range(rng.choice([9, 12])):
             steps.append({"op": "put", "k": rng.randrange(nk), "v": u.next(), "pad": rng.choice([300000, 700000, 1000000])})
             if rng.random() < 0.3:
@@ -55,10 +58,11 @@ def run(tier):
     import judge
     judge.model_check("SimpleDBDisk.tla", "MC_Disk_async_big.cfg" if thorough else "MC_Disk_async.cfg", o,
                       "exhaustive disk protocol with the asynchronous WAL (buffered appends, partial flushes, crash anywhere incl. recovery)", timeout=2400)
-    kinds = ["norot", "onerot", "manyrot", "wrap", "dio"]
-    n = 25 if thorough else 10
-    sessions = [("%s-%d" % (kinds[i % 5], i), session(rng, kinds[i % 5])) for i in range(n)]
+    kinds = ["norot", "onerot", "manyrot", "wrap", "dio", "diowrap"]
+    n = 30 if thorough else 12
+    sessions = [("%s-%d" % (kinds[i % 6], i), session(rng, kinds[i % 6])) for i in range(n)]
     npoints, nd, descs, nok, nbad = c02.run_sessions(o, binary, sessions, "async", PID)
+    c02.hugewal(o, binary, "async", PID)
     common.log("[C13] %d sessions, %d crash points (%d distinct images), %d allowed, %d rejected" % (n, npoints, nd, nok, nbad))
     o.traces, o.evaluations, o.nontrivial = n, npoints, nd
     o.extra["crash_point_kinds"] = dict(descs.most_common(30))
